@@ -32,7 +32,7 @@ def addrEngine : Engine := fun inp obs =>
       let codes := codesS.splitOn ","
       let hashes := hashesS.splitOn ","
       if shallow == "1" then
-        if codes.any (· == "0") then .viol "C13" "a shallow clone was measured instead of being refused"
+        if codes.any (· == "0") then .viol "C13,C10" "a shallow clone was measured instead of being refused"
         else if hashes.any (fun h => !h.endsWith "/0") then .viol "C13,C10" "a refused run wrote to stdout"
         else .ok
       else if codes.any (· != "0") then .viol "C13" s!"git-sizer failed in some addressing mode: exit codes {codes}"
